@@ -1,6 +1,7 @@
 package main
 
 import (
+	"runtime/debug"
 	"encoding/json"
 	"flag"
 	"fmt"
@@ -340,6 +341,9 @@ func safeVerify(eng *Engine, fn *ssa.Function, c *Contract, mode string) (vc *VC
 	defer func() {
 		if r := recover(); r != nil {
 			name := shortName(normKey(fn.String()))
+			if os.Getenv("GOVC_DEBUG") != "" {
+				fmt.Fprintf(os.Stderr, "engine error in %s: %v\n%s\n", name, r, debug.Stack())
+			}
 			vc = newVC(eng, name)
 			vc.oblig("engine-error", "", "true", "false", eng.prog.Fset.Position(fn.Pos()), c.Props, fmt.Sprintf("verifier failed on this function: %v", r))
 		}
